@@ -360,4 +360,63 @@ pub proof fn lemma_resolve_valid(r: Seq<u8>, b: Seq<u8>, n: Seq<u8>)
     lemma_uriref_compose(n);
     axiom_uriref_facts(n);
 }
+
+// ---- C16: the base of a URI is itself a valid URI ----
+/// certificate comp_uri_path_algebra::comp_path_split_after_slash
+#[verifier::external_body]
+pub proof fn axiom_path_split_after_slash(u: Seq<u8>, v: Seq<u8>)
+    requires lang_path(u + v), u.len() > 0, u[u.len() - 1] == 47,
+    ensures lang_path(u), lang_path(v),
+{}
+/// the directory part of a path that fits its context fits it too
+proof fn lemma_dir_fits(sch: Option<Seq<u8>>, au: Option<Seq<u8>>, p: Seq<u8>)
+    requires path_fits(sch, au, p),
+    ensures path_fits(sch, au, p.subrange(0, dir_end(p))), 0 <= dir_end(p) <= p.len(), dir_end(p) > 0 ==> p[dir_end(p) - 1] == 47,
+{
+    reveal(path_fits);
+    lemma_dir_end_slash(p, p.len() as int);
+    let d = dir_end(p);
+    let r = p.subrange(0, d);
+    assert(forall|j: int| 0 <= j < r.len() ==> #[trigger] r[j] == p[j]);
+    if sch is None && au is None {
+        // the first of : / in the directory is the first of : / in the path when the directory is not empty
+        lemma_first_of_bounds(p, 0, C_CSQF);
+        lemma_first_of_bounds(r, 0, C_CSQF);
+        let k = first_of(r, 0, C_CSQF);
+        if k < r.len() && r[k] == 58 {
+            assert forall|j: int| 0 <= j < k implies !cls(C_CSQF, #[trigger] p[j]) by { assert(!cls(C_CSQF, r[j])); }
+            lemma_first_of_is(p, 0, C_CSQF, k);
+        }
+    }
+}
+/// the text RiRefImpl::base returns (its proved postcondition)
+pub open spec fn base_text(s: Seq<u8>) -> Seq<u8> { s.subrange(0, x_auth_end(s) + dir_end(r_path(s))) }
+/// C16: "the base ... is itself a valid value of the same kind without query or fragment"
+pub proof fn lemma_base_valid(s: Seq<u8>)
+    requires lang_uri(s),
+    ensures lang_uri(base_text(s)), r_query(base_text(s)) is None, r_frag(base_text(s)) is None,
+{
+    axiom_uri_facts(s);
+    lemma_uriref_components(s);
+    lemma_ref_pieces(s);
+    lemma_x_layout(s);
+    let p = r_path(s);
+    lemma_dir_fits(r_scheme(s), r_auth(s), p);
+    let d = dir_end(p);
+    let dir = p.subrange(0, d);
+    let last = p.subrange(d, p.len() as int);
+    assert(dir + last =~= p);
+    axiom_path_consts();
+    if d > 0 { axiom_path_split_after_slash(dir, last); } else { assert(dir =~= sq0()); }
+    let b = base_text(s);
+    assert(b =~= opt_prefix(r_scheme(s), 58) + opt_auth(r_auth(s)) + dir + opt_suffix(63, None) + opt_suffix(35, None)) by {
+        assert(s.subrange(0, x_auth_end(s)) =~= s.subrange(0, x_hier(s)) + s.subrange(x_hier(s), x_auth_end(s)));
+        assert(b =~= s.subrange(0, x_auth_end(s)) + s.subrange(x_auth_end(s), x_auth_end(s) + d));
+        assert(s.subrange(x_auth_end(s), x_auth_end(s) + d) =~= dir);
+    }
+    lemma_ref_compose(r_scheme(s), r_auth(s), dir, None, None);
+    assert(b =~= ref_compose(r_scheme(s), r_auth(s), dir, None, None));
+    lemma_uriref_compose(b);
+    axiom_uriref_facts(b);
+}
 } // verus!
